@@ -134,15 +134,18 @@ where
             inner,
         }) = &type_
         {
-            dependency_bindings.insert(
-                Type::Reference(TypeReference {
-                    is_mutable: false,
-                    lifetime: lifetime.to_owned(),
-                    inner: inner.to_owned(),
-                })
-                .canonicalize(),
-                tokens.clone(),
-            );
+            // It's only a fallback: it must never replace the binding of a dependency
+            // that provides `&T` itself.
+            dependency_bindings
+                .entry(
+                    Type::Reference(TypeReference {
+                        is_mutable: false,
+                        lifetime: lifetime.to_owned(),
+                        inner: inner.to_owned(),
+                    })
+                    .canonicalize(),
+                )
+                .or_insert_with(|| tokens.clone());
         }
 
         dependency_bindings.insert(type_.canonicalize(), tokens);
